@@ -7,6 +7,7 @@ package benchseries
 // order of every hash map in benchseries (instrumented range statements).
 
 import (
+	"encoding/json"
 	"fmt"
 	"math"
 	"os"
@@ -453,12 +454,12 @@ func sDump(css []*ComparisonSeries, withResidues bool) string {
 					sort.Float64s(v)
 					fmt.Fprintf(&b, " num=%v", v)
 				}
-				if c.Denominator != nil {
+				if c.Denominator != nil && len(c.Denominator.Values) > 0 {
 					v := append([]float64(nil), c.Denominator.Values...)
 					sort.Float64s(v)
 					fmt.Fprintf(&b, " den=%v", v)
 				} else {
-					b.WriteString(" den=<nil>")
+					b.WriteString(" den=<nil>") // no baseline measurements at this point: a nil cell or one without values, the statement does not say which
 				}
 				b.WriteString("\n")
 			}
@@ -468,6 +469,15 @@ func sDump(css []*ComparisonSeries, withResidues bool) string {
 		}
 	}
 	return b.String()
+}
+
+// sTableSet puts the tables of a dump into a canonical order: the statement fixes which tables there are, not where
+// each stands in the returned slice (that the slice order does not depend on the order of adding is checked
+// separately, build against build).
+func sTableSet(dump string) string {
+	parts := strings.Split(dump, "TABLE ")
+	sort.Strings(parts[1:])
+	return strings.Join(parts, "TABLE ")
 }
 
 // reference model dump in the same format (without residues)
@@ -774,7 +784,7 @@ func c18Run(t *testing.T, r *sim.Run, tier string) {
 		got := sDump(css, false)
 		full := sDump(css, true)
 		r.Logf("order %d (files=%v): dump hash %x", o, viaFiles, sim.HashStr(full))
-		if got != want {
+		if got, want := sTableSet(got), sTableSet(want); got != want {
 			sig := "differs-from-result-set"
 			gl, wl := strings.Split(got, "\n"), strings.Split(want, "\n")
 			first := ""
@@ -901,6 +911,23 @@ func c18Run(t *testing.T, r *sim.Run, tier string) {
 		if policy == DUPE_REPLACE {
 			existing = append(existing, prev...) // under COMBINE an old summary in a cell that gets new data is a documented gap (nil numerator)
 		}
+		// a table saved by an earlier run that had nothing to compare in it yet (no benchmarks, no series points, no
+		// hash pairs) and now gets its first data: the outcome is what a fresh build gives
+		emptyUnit := ""
+		if policy != DUPE_REPLACE && T.Bool("saved-empty-table") {
+			emptyUnit = refCSS[T.Intn(len(refCSS), "empty-table-unit")].Unit
+			existing = append(existing, &ComparisonSeries{Unit: emptyUnit, Benchmarks: []string{}, Series: []string{}, Summaries: [][]*ComparisonSummary{}, HashPairs: map[string]ComparisonHashes{}})
+		}
+		if T.Bool("existing-through-json") {
+			// what -jo writes and -ji reads
+			if data, err := json.Marshal(existing); err == nil {
+				var back []*ComparisonSeries
+				if err := json.Unmarshal(data, &back); err == nil && len(back) == len(existing) {
+					existing = back
+					r.Hit("existing series passed through their JSON form")
+				}
+			}
+		}
 		var warns []string
 		b2, _ := NewBuilder(sOpts(withTable, &warns))
 		var txt strings.Builder
@@ -913,9 +940,31 @@ func c18Run(t *testing.T, r *sim.Run, tier string) {
 				b2.Add(res)
 			}
 		}
-		out, err := b2.AllComparisonSeries(existing, policy)
+		var out []*ComparisonSeries
+		var err error
+		func() {
+			defer func() {
+				if p := recover(); p != nil {
+					r.Fail("series", r.Lane+"/panic-with-existing-series", "AllComparisonSeries(existing) panicked: %v", p)
+				}
+			}()
+			out, err = b2.AllComparisonSeries(existing, policy)
+		}()
 		if err != nil {
 			r.Fail("series", "unexpected-error", "AllComparisonSeries(existing) failed: %v", err)
+		}
+		if emptyUnit != "" {
+			ax := func(css []*ComparisonSeries) string {
+				for _, cs := range css {
+					if cs.Unit == emptyUnit {
+						return fmt.Sprintf("%q %q", cs.Benchmarks, cs.Series)
+					}
+				}
+				return "(no such table)"
+			}
+			if a, b := ax(out), ax(prev); a != b {
+				r.Fail("series", r.Lane+"/saved-empty-table-changes-build", "with an empty saved table for %q handed in, the table has %s; a fresh build has %s", emptyUnit, a, b)
+			}
 		}
 		var gotOrder, wantOrder []string
 		for _, cs := range out {
@@ -930,8 +979,11 @@ func c18Run(t *testing.T, r *sim.Run, tier string) {
 			}
 			seenU[given[i].Unit] = true
 		}
+		// each of them comes back once; where in the slice is not prescribed
+		sort.Strings(gotOrder)
+		sort.Strings(wantOrder)
 		if len(seenU) == len(given) && strings.Join(gotOrder, ",") != strings.Join(wantOrder, ",") {
-			r.Fail("series", r.Lane+"/carried-over-tables-reordered", "tables without new results were handed in as %v and came back as %v", wantOrder, gotOrder)
+			r.Fail("series", r.Lane+"/carried-over-tables-lost", "tables without new results were handed in as %v and came back as %v", wantOrder, gotOrder)
 		}
 		r.Hit("existing series handed back in")
 	}
